@@ -108,7 +108,7 @@ func (p *printer) expr(v any) string {
 	case "len":
 		return "len(" + p.expr(e["e"]) + ")"
 	case "call":
-		return str(e["f"]) + "(" + p.exprs(seq(e["as"])) + ")"
+		return p.call(str(e["f"]), seq(e["as"]))
 	case "fld":
 		p.usesS = true
 		return p.operand(e["e"]) + "." + fieldName[toInt(e["f"])]
@@ -186,6 +186,14 @@ func (p *printer) byteExpr(v any) string {
 	return "byte(" + p.expr(v) + ")"
 }
 
+// call: a function named "S.m" is the method m of *S, its first argument the receiver
+func (p *printer) call(f string, as []any) string {
+	if i := strings.IndexByte(f, '.'); i >= 0 && len(as) > 0 {
+		return p.operand(as[0]) + "." + f[i+1:] + "(" + p.exprs(as[1:]) + ")"
+	}
+	return f + "(" + p.exprs(as) + ")"
+}
+
 func (p *printer) exprs(es []any) string {
 	ps := make([]string, len(es))
 	for i, e := range es {
@@ -246,7 +254,7 @@ func (p *printer) simple(v any) string {
 		}
 		return strings.Join(ls, ", ") + " = " + p.exprs(seq(s["es"]))
 	case "calls":
-		return str(s["f"]) + "(" + p.exprs(seq(s["as"])) + ")"
+		return p.call(str(s["f"]), seq(s["as"]))
 	case "mret":
 		var ns []string
 		allBlank := true
@@ -479,7 +487,12 @@ func renderProg(prog N, pkg string) string {
 		case len(rs) > 0:
 			res = " (" + strings.Join(rs, ", ") + ")"
 		}
-		p.line("func " + str(fn["n"]) + "(" + strings.Join(ps, ", ") + ")" + res + " {")
+		if name := str(fn["n"]); strings.Contains(name, ".") && len(ps) > 0 {
+			p.usesS = true
+			p.line("func (" + ps[0] + ") " + name[strings.IndexByte(name, '.')+1:] + "(" + strings.Join(ps[1:], ", ") + ")" + res + " {")
+		} else {
+			p.line("func " + name + "(" + strings.Join(ps, ", ") + ")" + res + " {")
+		}
 		p.block(seq(fn["body"]))
 		p.line("}")
 		p.line("")
